@@ -27,7 +27,9 @@ class Gen:
         self.max_depth = max_depth
         self.hostile = hostile
         self.counter = 0
-        self.pool = ["alpha", "beta", "gamma", "_priv", "__dunder__", "Kls", "_Hidden"]
+        # every underscore shape: none, leading one / two, trailing one / two, both sides symmetric and asymmetric, only underscores
+        self.pool = ["alpha", "beta", "gamma", "_priv", "__dunder__", "Kls", "_Hidden", "_x__", "__y", "z__", "w_", "_v_", "__u_",
+                     "_", "__", "___", "\u00e9t\u00e9", "_\u00e9__"]
         self.modname = "m"
 
     def name(self, prefix: str = "n") -> str:
